@@ -80,6 +80,29 @@ def guarded(run_fn, seconds: float = 45.0):
             out.decoded = {"note": "the run did not return within the time limit", "limit_s": seconds}
             out.trace = "timeout"
             return out
+        except Exception as e:
+            # an exception that escapes a run from INSIDE the code under test (innermost frame in the jinja2 tree
+            # being checked) while the harness was not observing - environment construction, warm-up, quiescence
+            # checks - is an outcome of that code, not a harness problem
+            if type(e).__name__ == "HarnessError":
+                raise
+            tb = e.__traceback__
+            last = None
+            while tb is not None:
+                last = tb.tb_frame.f_code.co_filename
+                tb = tb.tb_next
+            import os as _os
+            import sys as _sys
+
+            j2 = _sys.modules.get("jinja2")
+            root = _os.path.dirname(_os.path.realpath(j2.__file__)) + _os.sep if j2 is not None else None
+            if root is None or last is None or not _os.path.realpath(last).startswith(root):
+                raise
+            out = Outcome()
+            out.violate(("raised-outside-observation", type(e).__name__), error=scrub(repr(e))[:300])
+            out.decoded = {"note": "code under test raised where the harness only sets up or warms up", "error": scrub(repr(e))[:300]}
+            out.trace = "raised-outside-observation"
+            return out
         finally:
             signal.setitimer(signal.ITIMER_REAL, 0)
             signal.signal(signal.SIGALRM, old)
